@@ -46,7 +46,9 @@ def itemOK : ES.ClassItem → Bool
   | .esc _ => true
   | .prop _ _ _ => true
 
-theorem den_classItems {rer : ES.RER} (hic : rer.ignoreCase = false) (fl : IR.Flags) (hfi : fl.icase = false) :
+theorem den_classItems {rer : ES.RER} (hmsf : rer.unicodeSets = false ∨ rer.ignoreCase = false) (fl : IR.Flags)
+    (ic : Bool) (hfi : (fl.icase && fl.unicode) = ic)
+    (hesc : ∀ e, Den (ES.classEscape rer e).chars (codepointsFromClass (classOfEsc e).1 (classOfEsc e).2 ic)) :
     ∀ (items : List ES.ClassItem) (acc cps : IvList) (P : Nat → Bool), Den P acc →
       items.all itemOK = true → lowerClassItems fl items acc = .ok cps →
       Den (fun c => P c || (ES.classContentsCharSet rer items).chars c) cps
@@ -72,8 +74,8 @@ theorem den_classItems {rer : ES.RER} (hic : rer.ignoreCase = false) (fl : IR.Fl
           simp only [lowerClassItem, this, if_false, Except.ok.injEq] at hi; subst hi
           exact (den_add hd hok.1.1 hok.1.2).congr (fun c _ => by simp [ES.classItemCharSet, ES.CharSet.range])
         | esc e =>
-          simp only [lowerClassItem, addClassAtom, hfi, Bool.false_and, Except.ok.injEq] at hi; subst hi
-          exact (den_addSet hd (den_classEscape hic e)).congr (fun c _ => by simp [ES.classItemCharSet])
+          simp only [lowerClassItem, addClassAtom, hfi, Except.ok.injEq] at hi; subst hi
+          exact (den_addSet hd (hesc e)).congr (fun c _ => by simp [ES.classItemCharSet])
         | prop neg kind name =>
           simp only [lowerClassItem] at hi
           split at hi
@@ -86,13 +88,13 @@ theorem den_classItems {rer : ES.RER} (hic : rer.ignoreCase = false) (fl : IR.Fl
               | charClass s =>
                 rw [hp] at hi
                 simp only [addClassAtom, Except.ok.injEq] at hi; subst hi
-                obtain ⟨hpos, hneg, _⟩ := den_propEscape hic hp
+                obtain ⟨hpos, hneg, _⟩ := den_propEscape hmsf hp
                 cases neg with
                 | false =>
                   exact (den_addSet hd hpos).congr (fun c _ => by simp [ES.classItemCharSet])
                 | true =>
                   exact (den_addSet hd hneg).congr (fun c _ => by simp [ES.classItemCharSet])
-      have := den_classItems hic fl hfi is acc' cps _ step hok.2 hl
+      have := den_classItems hmsf fl ic hfi hesc is acc' cps _ step hok.2 hl
       exact this.congr (fun c _ => by
         simp [ES.classContentsCharSet, ES.CharSet.union, Bool.or_assoc])
 
@@ -292,7 +294,7 @@ theorem den_vOperand : ∀ (o : ES.VOp) (neg : Bool) (op : Operand), vopOK fl.un
       | stringSet strs => simp [hp] at hok
       | charClass ivs =>
         rw [hp] at hl
-        obtain ⟨hpos, hneg, hstrs⟩ := den_propEscape hic hp
+        obtain ⟨hpos, hneg, hstrs⟩ := den_propEscape (Or.inr hic) hp
         cases pneg with
         | false =>
           simp only [Bool.false_eq_true, if_false, Except.ok.injEq] at hl; subst hl
@@ -490,7 +492,7 @@ theorem lower_class_node {inp : Input} {cs : List Nat} (ht : Utf8Text inp cs) (p
         | charClass cps =>
           rw [hp] at hl
           simp only [hs.1, Bool.false_eq_true, if_false, Except.ok.injEq] at hl; subst hl
-          obtain ⟨hpos, _, hstrs⟩ := den_propEscape hic hp
+          obtain ⟨hpos, _, hstrs⟩ := den_propEscape (Or.inr hic) hp
           apply NodeSim.leaf (reverseCats_mkBracket _ _ _) rfl (numGroups_mkBracket _ _)
             (inRange_mkBracket _ _ _ _)
           simp only [ES.compileNode]
@@ -515,7 +517,8 @@ theorem lower_class_node {inp : Input} {cs : List Nat} (ht : Utf8Text inp cs) (p
       | ok cps =>
         rw [hc] at hl
         simp only [hs.1, Bool.false_eq_true, if_false, Except.ok.injEq] at hl; subst hl
-        have hden := (den_classItems hic fl hs.1 items [] cps _ den_empty hs.2 hc).congr
+        have hden := (den_classItems (Or.inr hic) fl false (by simp [hs.1]) (den_classEscape hic) items [] cps _
+          den_empty hs.2 hc).congr
           (Q := (ES.classContentsCharSet rer items).chars) (fun c _ => by simp)
         apply NodeSim.leaf (reverseCats_mkBracket _ _ _) rfl (numGroups_mkBracket _ _)
           (inRange_mkBracket _ _ _ _)
